@@ -94,6 +94,7 @@ from halmos.sevm import (
     CallContext,
     Contract,
     Exec,
+    HalmosLogs,
     Message,
     Path,
     Profiler,
@@ -467,7 +468,9 @@ def run_target_function(
     msg_sender: Address,
     msg_value: Word,
     msg_sender_cond: BoolRef | None = None,
+    logs: HalmosLogs | None = None,
 ) -> Iterator[Exec]:
+    sevm, solver = None, None
     try:
         # initialize symbolic execution environment
         sevm = SEVM(args, fun_info)
@@ -500,6 +503,10 @@ def run_target_function(
         yield from sevm.run_message(ex, message, path)
 
     finally:
+        # keep track of incomplete exploration (e.g. bounded loops) of this call
+        if logs is not None and sevm is not None:
+            logs.extend(sevm.logs)
+
         reset(solver)
 
 
@@ -583,6 +590,7 @@ def run_target_contract(
                 msg_sender,
                 msg_value,
                 msg_sender_cond,
+                logs=ctx.frontier_logs,
             )
 
         except Exception as err:
@@ -1218,6 +1226,9 @@ def run_test(ctx: FunctionContext) -> TestResult:
             print(ctx.traces[path_id], end="")
 
     logs = sevm.logs
+    if is_invariant:
+        # loops may also have been cut in the target calls made to reach the frontier states
+        logs.extend(ctx.contract_ctx.frontier_logs)
     if logs.bounded_loops:
         warn_code(
             LOOP_BOUND,
